@@ -35,12 +35,12 @@ ABSENT = ["zzz", "a.gb", "a.gbk", "c", "c.d.gb", "sub/f", "sub", "x", "x.gb", "n
 def bounds(tier):
     return dict(embedded="all items of ytk, ptk, cidar, ecoflex, plant", file_alphabet=ENTRIES, max_entries=4 if tier == "quick" else 6,
                 backends=["OSFS (real directory)", "MemoryFS"], plasmid_content=dict(labels=sorted(LABELS), feature_arrangements=SHAPES, part_types=["YTKPart1", "YTKPart3"]), extensions=["default", ["gb"], ["gbff"]], absent_keys=ABSENT,
-                combined=dict(members=["A", "B (overlaps A with different items)", "A again", "C (larger, overlaps A and B)", "embedded PTK", "P1 (one local plasmid under a PTK id)", "empty"], ops=["<<", "add_registry"], depth=4))
+                combined=dict(members=["A", "B (overlaps A with different items)", "A again", "C (larger, overlaps A and B)", "embedded PTK", "P1 (one local plasmid under a PTK id)", "empty", "NB (a combination of B)", "NCA (a combination of C then A)"], ops=["<<", "add_registry"], depth=4, histories_merged_by_content_from_depth=UNMERGED_DEPTH))
 
 
 def goals(tier):
     return ["embedded-question-order", "embedded-items", "fs-supported-file", "fs-ignored-file", "fs-case-variant-extension", "fs-subdirectory", "fs-directory-named-like-a-plasmid",
-            "fs-dotted-stem", "fs-empty-directory", "fs-question-order", "fs-content-shapes", "combined-overlap-first-wins", "combined-small-before-large-overlap", "combined-repeated-member", "combined-closure-or-depth"]
+            "fs-dotted-stem", "fs-empty-directory", "fs-question-order", "fs-content-shapes", "combined-overlap-first-wins", "combined-small-before-large-overlap", "combined-repeated-member", "combined-nested-member-after-an-overlapping-one", "combined-closure-or-depth"]
 
 
 # ---------------------------------------------------------------------------------------------
@@ -480,11 +480,12 @@ def unit_fs(st, size, c, nchunks):
 # ---------------------------------------------------------------------------------------------
 # combined registries: explicit-state BFS against a dict model
 
-MEMBERS = ["A", "B", "A2", "C", "PTK", "P1", "EMPTY"]
+MEMBERS = ["A", "B", "A2", "C", "PTK", "P1", "EMPTY", "NB", "NCA"]
+UNMERGED_DEPTH = 3
 
 
 def member(name, cache):
-    """A {a,b}; B {b,c.d} (other content); A2 = A again; C {a,b,c.d,e} (larger, overlaps A and B, other content);
+    """A {a,b}; B {b,c.d} (other content); A2 = A again; C {a,b,c.d,e} (larger, overlaps A and B, other content); NB / NCA nested combinations;
     PTK = embedded Pichia registry (21 items); P1 = one local plasmid stored under the first PTK id; EMPTY"""
     if name not in cache:
         if name == "A":
@@ -502,6 +503,17 @@ def member(name, cache):
         elif name == "P1":
             first = sorted(regs.registry_objects()["ptk"])[0]
             cache[name] = make_registry("mem", [first + ".gb"], None, None, variant=1)[0]
+        elif name in ("NB", "NCA"):
+            # members that are themselves combinations: of B alone; of C then A (first-wins already applied inside)
+            from moclo.registry.base import CombinedRegistry
+            n = CombinedRegistry()
+            for inner in (["B"] if name == "NB" else ["C", "A"]):
+                n.add_registry(member(inner + "'", cache))
+            cache[name] = n
+        elif name.endswith("'"):
+            # private copies for the nested members (same content as the member they are named after)
+            spec = {"A'": (["a.gb", "b.gb"], 0), "B'": (["b.gb", "c.d.gb"], 1), "C'": (["a.gb", "b.gbk", "c.d.gb", "e.gb"], 2)}[name]
+            cache[name] = make_registry("mem", spec[0], None, None, variant=spec[1])[0]
     return cache[name]
 
 
@@ -568,12 +580,17 @@ def unit_combined(st, tier):
                         st.goal("combined-small-before-large-overlap")
                 if len(set(names)) < len(names) or ("A" in names and "A2" in names):
                     st.goal("combined-repeated-member")
+                if any(x in ("NB", "NCA") for x in names[1:]):
+                    st.goal("combined-nested-member-after-an-overlapping-one")
                 canon = tuple(sorted(md.items()))
-                if canon not in seen_states:
-                    seen_states.add(canon)
+                # histories are merged by the content the model predicts only from depth 3 on: up to there every history is
+                # extended (what a registry object keeps besides its content -- insertion order, counters -- may matter later)
+                new_state = canon not in seen_states
+                seen_states.add(canon)
+                if new_state or len(nh) < UNMERGED_DEPTH:
                     if len(nh) < depth:
                         nxt.append(nh)
-                    else:
+                    elif new_state:
                         closed = False
         frontier = nxt
     st.states += len(seen_states)
